@@ -363,10 +363,8 @@ func ruleQPRE(p *Program, r *Reporter) {
 			}
 		}
 	}
-	if results == nil {
-		r.Anchor(id, "results map of RowsByCondition")
-		return
-	}
+	// (when the result is built by a copying helper there is no map to watch in this
+	// function: the returns below carry the obligation alone)
 	emptyCond := func(b *ssa.BasicBlock) bool {
 		// dominated by the true edge of len(conditions) == 0
 		for _, f := range factsAt(b) {
@@ -384,7 +382,11 @@ func ruleQPRE(p *Program, r *Reporter) {
 		return false
 	}
 	n := 0
-	if refs := results.Referrers(); refs != nil {
+	var resultRefs []ssa.Instruction
+	if results != nil && results.Referrers() != nil {
+		resultRefs = *results.Referrers()
+	}
+	if refs := &resultRefs; refs != nil {
 		for _, ref := range *refs {
 			mu, ok := ref.(*ssa.MapUpdate)
 			if !ok {
@@ -407,8 +409,8 @@ func ruleQPRE(p *Program, r *Reporter) {
 		r.Ob(id, funcName(fn), "successful return", retPos(ret, fn), ok2, true,
 			ifs(ok2, "results are returned only after the evaluation loop (or for an empty condition list)", "results can be returned before every condition was evaluated"))
 	}
-	if n < 3 {
-		r.Anchor(id, fmt.Sprintf("RowsByCondition: %d result writes/returns, expected >= 3", n))
+	if n < 2 {
+		r.Anchor(id, fmt.Sprintf("RowsByCondition: %d result writes/returns, expected >= 2", n))
 	}
 }
 
